@@ -832,6 +832,7 @@ fn mir_body<'tcx>(tcx: TyCtxt<'tcx>, ldid: LocalDefId, body: &mir::Body<'tcx>) -
 					other => format!("{:?}", std::mem::discriminant(other)),
 				};
 				tv.push(("assert", s(kind)));
+				tv.push(("msg", s(with_no_trimmed_paths!(format!("{:?}", msg)))));
 				succ.push(target.as_usize());
 			},
 			T::FalseEdge { real_target, .. } => {
